@@ -7,6 +7,7 @@ require (
 	github.com/moby/go-archive v0.0.0
 	github.com/moby/patternmatcher v0.6.0
 	github.com/moby/sys/user v0.4.0
+	github.com/sirupsen/logrus v1.9.3
 	golang.org/x/sys v0.31.0
 )
 
@@ -16,7 +17,6 @@ require (
 	github.com/moby/sys/mountinfo v0.7.2 // indirect
 	github.com/moby/sys/sequential v0.6.0 // indirect
 	github.com/moby/sys/userns v0.1.0 // indirect
-	github.com/sirupsen/logrus v1.9.3 // indirect
 )
 
 replace github.com/moby/go-archive => /repo
